@@ -808,3 +808,30 @@ extend('C18', 'Round 9: split() of header text names its separator; the '
        'the invalid address.', 'reaching definitions')
 extend('C19', 'Round 9: the respawn of _remove_client is not conditioned '
        'on the state of the exiting client.')
+
+# rules added in round 10 (one seed per property; DESIGN.md §10 Round 10)
+extend('C01', 'Round 10: the settled marks of a partial round are persisted '
+       'before the message becomes dispatchable again, also when the '
+       're-queue sits in a helper (= R3.3).')
+extend('C03', 'Round 10: the try of Queue._attempt whose catch-all arm files '
+       'the whole envelope for a retry covers the relay call only (= B18).')
+extend('C07', 'Round 10: command handlers do not change IO.recv_buffer '
+       '(= G1): unread command lines are owed their reply.')
+extend('C09', 'Round 10: MessageTooBig is raised only where bytes are '
+       'counted, or on self.size / self.max_size alone.')
+extend('C11', 'Round 10: the output stream quoted by the pipe relays is not '
+       'chosen by the truthiness of the raw stdout / stderr.')
+extend('C13', 'Round 10: no outcome-recording method (bounce, removal, '
+       'retry, settled marks) is reachable from the try body of '
+       'Queue._attempt that the re-queueing catch-all arm belongs to.',
+       'call-graph reachability from a try body')
+extend('C15', 'Round 10: no strip / lstrip / rstrip with a multi-character '
+       'constant holding a letter or digit in the storage backends.')
+extend('C17', 'Round 10: the reply text reaches the socket only through the '
+       'line cutter, or under a test for a bare LF.',
+       'taint of the text through assignments, guards of each send site')
+extend('C18', 'Round 10: a memo in shared state filled while a header is '
+       'parsed is keyed on every parameter the function reads.')
+extend('C19', 'Round 10: a container a relay client creates, fills per '
+       'message and reads into the result is emptied at the top of '
+       '_deliver or in its finally.')
